@@ -157,6 +157,40 @@ def preprocess_transforms(ctx, rng):
             ctx.violation("psd-preprocessing-returns-expected-series", dict(case=c, model=mo[:8]), seam="hvsrpy.preprocess(PsdPreProcessingSettings)")
         elif c["mode"] == "flat" and not vclose(c["impl"], closed, scale, 1e-7):
             ctx.violation("flat-response-is-division-by-sensitivity-with-mean-removed", dict(case=c, closed_form=closed[:8]), seam="hvsrpy.preprocess")
+    # several recordings of different length in ONE preprocess call, a short one first and a later one longer than 2**15 samples:
+    # the transform length must cover the LONGEST recording (zero padding, never truncation) for every recording of the list.
+    # Oracle: numpy's rfft/irfft (trusted to be the DFT pair; the definitional DFT of the model is too slow at this size).
+    from scipy.signal import detrend as _detrend
+    from scipy.signal.windows import tukey as _tukey
+    for j in range(ctx.budget(2, 8)):
+        dt = float(rng.choice(pg.DTS)); w = float(rng.choice([0.05, 0.1, 0.5]))
+        lens = [int(rng.integers(200, 3000)), int(rng.integers(32769, 40000))] + ([int(rng.integers(200, 3000))] if j % 2 else [])
+        recs = [pg.gen_record(rng, n=L, dt=dt) for L in lens]
+        mode = ["diff", "flat"][j % 2]; S = float(rng.choice([2.5, 629.0]))
+        kw = dict(orient_to_degrees_from_north=None, filter_corner_frequencies_in_hz=[None, None], window_length_in_seconds=None, detrend=None,
+                  window_type_and_width=["tukey", w], fft_settings=None)
+        st = (hvsrpy.PsdPreProcessingSettings(differentiate=True, **kw) if mode == "diff" else
+              hvsrpy.PsdPreProcessingSettings(instrument_transfer_function=InstrumentTransferFunction([], [], S, 1.0), **kw))
+        with quiet():
+            out = hvsrpy.preprocess([pg.make_srecord(r) for r in recs], st)
+        n = 65536
+        ctx.supporting["mixed_length_preprocess_cases"] = ctx.supporting.get("mixed_length_preprocess_cases", 0) + 1
+        for k, (r, o) in enumerate(zip(recs, out)):
+            L = len(r["vt"])
+            x = _detrend(np.array(r["vt"]), type="constant") * _tukey(L, w)
+            X = np.fft.rfft(x, n); f = np.fft.rfftfreq(n, dt)
+            if mode == "diff":
+                Y = X * (2j * np.pi * f)
+            else:
+                Y = X / S; Y[0] = 0
+            want = np.fft.irfft(Y, n)[:L]
+            got = np.asarray(o.vt.amplitude)
+            if got.shape != want.shape or not np.allclose(got, want, rtol=1e-7, atol=1e-9 * float(np.max(np.abs(want)))):
+                ctx.violation("psd-preprocessing-transform-length-covers-every-recording",
+                              dict(case=dict(mode=mode, dt=dt, width=w, S=S, lengths=lens, index=k, seed_note="records regenerated from the check's seed"),
+                                   got_len=int(got.size), max_abs_diff=(float(np.max(np.abs(got - want))) if got.shape == want.shape else None)),
+                              seam="hvsrpy.preprocess([short, long], PsdPreProcessingSettings)")
+                break
     # pole-zero response: oracle with scipy's freqs directly (trusted)
     import scipy.signal as signal
     for _ in range(ctx.budget(4, 40)):
